@@ -581,20 +581,16 @@ def makeUndirected (s : Spec) : Option Spec :=
 
 /-! queries -/
 
-def insertPair (p : Nat × Nat) : List (Nat × Nat) → List (Nat × Nat)
-  | [] => [p]
-  | q :: r => if p.1 < q.1 then p :: q :: r else q :: insertPair p r
-
-def sortPairs (l : List (Nat × Nat)) : List (Nat × Nat) := l.foldr insertPair []
-
-/-- `(neighbour, edge)` pairs leaving `n`, ascending neighbour -/
+/-- `(neighbour, edge)` pairs leaving `n`, collected into an ordered map (ascending neighbour) -/
 def outPairs (s : Spec) (n : Nat) : List (Nat × Nat) :=
-  sortPairs (s.edges.filterMap (fun t =>
-    if t.2.1 = n then some (t.2.2, t.1) else if !s.directed && t.2.2 = n then some (t.2.1, t.1) else none))
+  s.edges.foldl (fun acc t =>
+    if t.2.1 = n then AL.insertNew t.2.2 t.1 acc
+    else if !s.directed && t.2.2 = n then AL.insertNew t.2.1 t.1 acc else acc) []
 
 def inPairs (s : Spec) (n : Nat) : List (Nat × Nat) :=
-  sortPairs (s.edges.filterMap (fun t =>
-    if t.2.2 = n then some (t.2.1, t.1) else if !s.directed && t.2.1 = n then some (t.2.2, t.1) else none))
+  s.edges.foldl (fun acc t =>
+    if t.2.2 = n then AL.insertNew t.2.1 t.1 acc
+    else if !s.directed && t.2.1 = n then AL.insertNew t.2.2 t.1 acc else acc) []
 
 /-- the row a consistent implementation must hold for node `n` -/
 def row (s : Spec) (n : Nat) : Row := { out := s.outPairs n, inn := s.inPairs n }
@@ -609,7 +605,41 @@ def allLeaves (s : Spec) : List Nat := s.nodes.filter (fun n => RowQ.rowIsLeaf s
 def allInnerNodes (s : Spec) : List Nat := s.nodes.filter (fun n => decide ((s.outPairs n).length ≥ 1))
 def leavesFromNode (s : Spec) (n maxDepth : Nat) : Option (List Nat) := RowQ.fillLeaves s.neighbors maxDepth n n []
 
+/-- one operation on the reference: returned ids and new reference, `none` = raises -/
+def applyR (s : Spec) : Op → Option (List Nat × Spec)
+  | .createNode => some ([s.createNode.1], s.createNode.2)
+  | .createNodeFromNode o => (s.createNodeFromNode o).map (fun r => ([r.1], r.2))
+  | .createNodeOnEdge e => (s.createNodeOnEdge e).map (fun r => ([r.1], r.2))
+  | .createNodeFromEdge e => (s.createNodeFromEdge e).map (fun r => ([r.1], r.2))
+  | .link a b => (s.link a b).map (fun r => ([r.1], r.2))
+  | .linkE a b e => (s.linkE a b e).map (fun r => ([], r))
+  | .unlink a b => (s.unlink a b).map (fun r => ([r.1], r.2))
+  | .switchNodes a b => (s.switchNodes a b).map (fun r => ([], r))
+  | .deleteNode n => (s.deleteNode n).map (fun r => ([], r))
+  | .makeDirected => some ([], s.makeDirected)
+  | .makeUndirected => s.makeUndirected.map (fun r => ([], r))
+  | .setRoot n => (s.setRoot n).map (fun r => ([], r))
+
 end Spec
+
+def GOut.mapVal {α β : Type} (f : α → β) : GOut α → GOut β
+  | .ok a g => .ok (f a) g
+  | .exc g => .exc g
+
+/-- one operation on the implementation model, returned ids as a list -/
+def G.applyR (g : G) : Op → GOut (List Nat)
+  | .createNode => (g.createNode).mapVal (fun n => [n])
+  | .createNodeFromNode o => (g.createNodeFromNode o).mapVal (fun n => [n])
+  | .createNodeOnEdge e => (g.createNodeOnEdge e).mapVal (fun n => [n])
+  | .createNodeFromEdge e => (g.createNodeFromEdge e).mapVal (fun n => [n])
+  | .link a b => (g.link a b).mapVal (fun e => [e])
+  | .linkE a b e => (g.linkE a b e).mapVal (fun _ => [])
+  | .unlink a b => g.unlink a b
+  | .switchNodes a b => (g.switchNodes a b).mapVal (fun _ => [])
+  | .deleteNode n => (g.deleteNode n).mapVal (fun _ => [])
+  | .makeDirected => .ok [] g.makeDirected
+  | .makeUndirected => g.makeUndirected.mapVal (fun _ => [])
+  | .setRoot n => (g.setRoot n).mapVal (fun _ => [])
 
 /-- abstraction function: forget the node rows -/
 def G.abs (g : G) : Spec :=
